@@ -152,7 +152,7 @@ PROPS = {
  ),
  "C06": dict(
   twin_toml=True,
-  ops={"assign": dict(fields=["r", "doc"], spec=[("r", "spec_r", ident), ("doc", "spec_doc", ident)], laws=[])},
+  ops={"assign": dict(fields=["r", "doc"], spec=[("r", "spec_r", ident), ("doc", "spec_doc", ident)], laws=["law_slack"])},
   rule="tiny-grammar exhaustive scope + seeded random (document, pointer, value); non-trivial: ≥2 tokens or an index/escaped token, on a container",
   exhaustive="155 tiny documents × all pointers of ≤2/≤3 tokens × 1–2 values",
   theorems="Jp.C06.assign_eq_spec, expand_eq_spec, assign_root, only_two_failures, spec_rules",
@@ -161,7 +161,7 @@ PROPS = {
   twin_toml=True,
   # the six laws are evaluated on the real crate; against the model only ok/err and the document
   # afterwards are compared (error kinds and the returned value belong to C06)
-  ops={"assign": dict(fields=[_okerr("r"), "doc"], laws=["law_atomic", "law_ryw", "law_frame", "law_replaced", "law_idem"])},
+  ops={"assign": dict(fields=[_okerr("r"), "doc"], laws=["law_atomic", "law_ryw", "law_frame", "law_replaced", "law_idem", "law_slack"])},
   rule="as C06; the six laws are evaluated on the real crate for every case",
   exhaustive="155 tiny documents × all pointers of ≤2/≤3 tokens × 1–2 values",
   theorems="Jp.C07.atomic, read_your_write, frame, replaced_some, replaced_none, idempotent",
@@ -169,7 +169,7 @@ PROPS = {
  "C08": dict(
   twin_toml=True,
   ops={"delete": dict(fields=["r", "doc"], spec=[("r", "spec_r", ident), ("doc", "spec_doc", ident)],
-                      laws=["law_agrees", "law_none_unchanged", "law_removed", "law_root"])},
+                      laws=["law_agrees", "law_none_unchanged", "law_removed", "law_root", "law_slack"])},
   rule="tiny-grammar exhaustive scope + seeded random, many pointers ending in index = len, len+1, '-', empty arrays; non-trivial as C05",
   exhaustive="155 tiny documents × all pointers of ≤2/≤3 tokens",
   theorems="Jp.C08.delete_eq_spec, delete_some_iff_resolves, delete_none_unchanged, delete_no_panic, delete_root, removeAt_*",
